@@ -14,6 +14,40 @@
 #define PACKET_NUMBER_LENGTH_MAX 4
 #define SAMPLE_LENGTH 16
 
+#ifdef AIOQUIC_VERIF
+/*
+ * Verification hook H1 (add-only, compiled only with -DAIOQUIC_VERIF): red zones
+ * around the fixed scratch arrays so that an intra-object overflow becomes an
+ * ordinary AddressSanitizer report. Without the macro the struct layout and the
+ * code are unchanged. With the macro but without ASan the red zones are plain
+ * unused bytes.
+ */
+#define VERIF_REDZONE_SIZE 64
+/* red zone placed before an array: 8-aligned and a multiple of 8 long, so the
+ * array that follows starts on an ASan shadow granule and buffer[-1] is poisoned */
+#define VERIF_REDZONE_BEFORE(name) unsigned char name[VERIF_REDZONE_SIZE] __attribute__((aligned(8)));
+/* red zone placed after an array: no alignment, so it starts at the very first
+ * byte past the array (ASan can poison the tail of a granule) */
+#define VERIF_REDZONE_AFTER(name) unsigned char name[VERIF_REDZONE_SIZE];
+#if defined(__has_feature)
+#if __has_feature(address_sanitizer)
+#define VERIF_HAVE_ASAN 1
+#endif
+#endif
+#if !defined(VERIF_HAVE_ASAN) && defined(__SANITIZE_ADDRESS__)
+#define VERIF_HAVE_ASAN 1
+#endif
+#ifdef VERIF_HAVE_ASAN
+void __asan_poison_memory_region(void const volatile *addr, size_t size);
+void __asan_unpoison_memory_region(void const volatile *addr, size_t size);
+#define VERIF_POISON(field) __asan_poison_memory_region((field), sizeof(field))
+#define VERIF_UNPOISON(field) __asan_unpoison_memory_region((field), sizeof(field))
+#else
+#define VERIF_POISON(field) ((void)(field))
+#define VERIF_UNPOISON(field) ((void)(field))
+#endif
+#endif
+
 #define CHECK_RESULT(expr) \
     if (!(expr)) { \
         ERR_clear_error(); \
@@ -36,7 +70,13 @@ typedef struct {
     PyObject_HEAD
     EVP_CIPHER_CTX *decrypt_ctx;
     EVP_CIPHER_CTX *encrypt_ctx;
+#ifdef AIOQUIC_VERIF
+    VERIF_REDZONE_BEFORE(verif_rz_before_buffer)
+#endif
     unsigned char buffer[PACKET_LENGTH_MAX];
+#ifdef AIOQUIC_VERIF
+    VERIF_REDZONE_AFTER(verif_rz_after_buffer)
+#endif
     unsigned char key[AEAD_KEY_LENGTH_MAX];
     unsigned char iv[AEAD_NONCE_LENGTH];
     unsigned char nonce[AEAD_NONCE_LENGTH];
@@ -72,6 +112,11 @@ AEAD_init(AEADObject *self, PyObject *args, PyObject *kwargs)
     const unsigned char *key, *iv;
     Py_ssize_t cipher_name_len, key_len, iv_len;
 
+#ifdef AIOQUIC_VERIF
+    VERIF_POISON(self->verif_rz_before_buffer);
+    VERIF_POISON(self->verif_rz_after_buffer);
+#endif
+
     if (!PyArg_ParseTuple(args, "y#y#y#", &cipher_name, &cipher_name_len, &key, &key_len, &iv, &iv_len))
         return -1;
 
@@ -104,6 +149,10 @@ AEAD_init(AEADObject *self, PyObject *args, PyObject *kwargs)
 static void
 AEAD_dealloc(AEADObject *self)
 {
+#ifdef AIOQUIC_VERIF
+    VERIF_UNPOISON(self->verif_rz_before_buffer);
+    VERIF_UNPOISON(self->verif_rz_after_buffer);
+#endif
     EVP_CIPHER_CTX_free(self->decrypt_ctx);
     EVP_CIPHER_CTX_free(self->encrypt_ctx);
     PyTypeObject *tp = Py_TYPE(self);
@@ -222,8 +271,17 @@ typedef struct {
     PyObject_HEAD
     EVP_CIPHER_CTX *ctx;
     int is_chacha20;
+#ifdef AIOQUIC_VERIF
+    VERIF_REDZONE_BEFORE(verif_rz_before_buffer)
+#endif
     unsigned char buffer[PACKET_LENGTH_MAX];
+#ifdef AIOQUIC_VERIF
+    VERIF_REDZONE_AFTER(verif_rz_after_buffer)
+#endif
     unsigned char mask[31];
+#ifdef AIOQUIC_VERIF
+    VERIF_REDZONE_AFTER(verif_rz_after_mask)
+#endif
     unsigned char zero[5];
 } HeaderProtectionObject;
 
@@ -236,6 +294,12 @@ HeaderProtection_init(HeaderProtectionObject *self, PyObject *args, PyObject *kw
     const unsigned char *key;
     Py_ssize_t cipher_name_len, key_len;
     int res;
+
+#ifdef AIOQUIC_VERIF
+    VERIF_POISON(self->verif_rz_before_buffer);
+    VERIF_POISON(self->verif_rz_after_buffer);
+    VERIF_POISON(self->verif_rz_after_mask);
+#endif
 
     if (!PyArg_ParseTuple(args, "y#y#", &cipher_name, &cipher_name_len, &key, &key_len))
         return -1;
@@ -268,6 +332,11 @@ HeaderProtection_init(HeaderProtectionObject *self, PyObject *args, PyObject *kw
 static void
 HeaderProtection_dealloc(HeaderProtectionObject *self)
 {
+#ifdef AIOQUIC_VERIF
+    VERIF_UNPOISON(self->verif_rz_before_buffer);
+    VERIF_UNPOISON(self->verif_rz_after_buffer);
+    VERIF_UNPOISON(self->verif_rz_after_mask);
+#endif
     EVP_CIPHER_CTX_free(self->ctx);
     PyTypeObject *tp = Py_TYPE(self);
     freefunc free = PyType_GetSlot(tp, Py_tp_free);
